@@ -252,9 +252,10 @@ DrawOp(r, S) ==
 \* ------------------------------------------------------------- exhaustive small-scope vocabulary (Mode = "full")
 \* all on reaction r1 of seed model 1 (bounds (0, 1000), rule g1, in the chain EX_m3 -> r1 -> r2 -> r3 -> EX_m4)
 D1(m, k) == [x \in MetU |-> IF x = m THEN k ELSE 0]
+\* (two values per setter at depth 3, three at depth >= 4)
 BoundOps ==
-  {[a |-> "SetLB", s |-> 1, r |-> "r1", v |-> v] : v \in {-10, 5, 1500}}
-  \cup {[a |-> "SetUB", s |-> 1, r |-> "r1", v |-> v] : v \in {-5, 500, 2000}}
+  {[a |-> "SetLB", s |-> 1, r |-> "r1", v |-> v] : v \in (IF Depth >= 4 THEN {-10, 5, 1500} ELSE {-10, 1500})}
+  \cup {[a |-> "SetUB", s |-> 1, r |-> "r1", v |-> v] : v \in (IF Depth >= 4 THEN {-5, 500, 2000} ELSE {-5, 2000})}
   \cup {[a |-> "SetBounds", s |-> 1, r |-> "r1", lo |-> -5, hi |-> 5],
         [a |-> "RxnKnockOut", s |-> 1, r |-> "r1"],
         [a |-> "GeneKnockOut", s |-> 1, g |-> "g1"],
@@ -348,11 +349,11 @@ ObjOps ==
   {[a |-> "SetObjCoef", s |-> 1, r |-> "r1", v |-> 2],
    [a |-> "SetObjCoef", s |-> 1, r |-> "r3", v |-> 0],
    [a |-> "SetObjective", s |-> 1, form |-> 1, d |-> [x \in RxU |-> IF x = "r2" THEN 1 ELSE 0]],
-   [a |-> "SetDirection", s |-> 1, dir |-> "min"],
    [a |-> "Analyze", s |-> 1, kind |-> "optimize_min", arg |-> 0],
    [a |-> "RemoveReactions", s |-> 1, rs |-> <<"r3">>, orphans |-> FALSE, form |-> 0],
-   [a |-> "SetBounds", s |-> 1, r |-> "r1", lo |-> -5, hi |-> 5],
    [a |-> "Enter", s |-> 1], [a |-> "Exit", s |-> 1]}
+  \cup (IF Depth >= 4 THEN {[a |-> "SetDirection", s |-> 1, dir |-> "min"],
+                            [a |-> "SetBounds", s |-> 1, r |-> "r1", lo |-> -5, hi |-> 5]} ELSE {})
 FullOps ==
   IF FullSet \in {"objp", "objc"} THEN ObjOps ELSE
   IF FullSet = "mid" THEN
@@ -429,7 +430,10 @@ Init ==
 Next ==
   IF Mode = "full"
   THEN /\ Len(hist) < Len(FullPrefix) + Depth
-       /\ \E op \in FullOps : st' = Apply(op, st).st /\ hist' = Append(hist, op)
+       \* (io vocabulary: an edit after the last import is never seen by one -- the last operation is an import)
+       /\ \E op \in (IF FullSet = "io" /\ Len(hist) = Len(FullPrefix) + Depth - 1
+                      THEN {o \in FullOps : o.a \in {"RoundTrip", "LoadDoc"}} ELSE FullOps) :
+             st' = Apply(op, st).st /\ hist' = Append(hist, op)
        /\ UNCHANGED <<rng, walk>>
   ELSE
   /\ Len(hist) < Depth
